@@ -119,8 +119,8 @@ def runCase (fuel : Nat) (c : Json) : Json :=
   match exprOfJson (jget c "e") with
   | none => jo [("err", js "OOD")]
   | some e =>
-    match (if jhas c "host" then runHost fuel (layersOfJson (jget c "host")) (jnat (jget c "host") "at") (valOfJson (jget c "doc")) e
-           else run fuel (valOfJson (jget c "doc")) e) with
+    match (if jhas c "host" then runKw fuel (layersOfJson (jget c "host")) (jnat (jget c "host") "at") (valOfJson (jget c "doc")) e
+           else runKw fuel [] 0 (valOfJson (jget c "doc")) e) with
     | .ok (.data v) => jo [("ok", valToJson v)]
     | .ok .context => jo [("ctx", jb true)]
     | .error er => jo [("err", js (errName er))]
